@@ -13,16 +13,21 @@ use temporal_rs::parsers::Precision;
 use temporal_rs::tzdb::FsTzdbProvider;
 use temporal_rs::{Calendar, Duration, Instant, Now, PlainDateTime, PlainTime, TimeZone, ZonedDateTime};
 
-pub const ZONES: [&str; 8] = ["UTC", "+05:30", "-03:30", "America/New_York", "Europe/London", "Australia/Lord_Howe", "Pacific/Apia", "Asia/Kathmandu"];
+pub const ZONES: [&str; 10] = ["UTC", "+05:30", "-03:30", "America/New_York", "Europe/London", "Australia/Lord_Howe", "Pacific/Apia", "Asia/Kathmandu", "America/Toronto", "America/Sao_Paulo"];
 pub const CALS: [&str; 3] = ["iso8601", "gregory", "japanese"];
 // every field distinct: ...T..:..:07.008009010-like readings; around DST changes; negative epoch
-pub const INSTANTS: [i128; 10] = [
+pub const INSTANTS: [i128; 13] = [
     1_614_834_367_008_009_010, // 2021-03-04T05:06:07.008009010Z
     1_636_263_000_001_002_003, // inside New York's repeated hour 2021-11-07
     1_615_705_200_000_000_000, // New York spring-forward instant
     -86_399_999_998_997_996,
     946_684_799_999_999_999,
     2_500_000_000_123_456_789,
+    // days whose midnight is skipped: Toronto 1919-03-31 (23:30 -> 00:30, the gap starts before midnight),
+    // Sao Paulo 2018-11-04 (00:00 -> 01:00), Apia 2011-12-31 (the 30th is skipped altogether)
+    -1_601_710_000_000_000_000,
+    1_541_340_000_000_000_000,
+    1_325_325_600_000_000_000,
     // both ends of the instant range and a day inside them (core and wrapper must fail alike there)
     8_640_000_000_000_000_000_000,
     -8_640_000_000_000_000_000_000,
